@@ -19,7 +19,7 @@ from .progs import compile_expr
 NODE_BASE = 0xC0DE00
 GAS = 0xFFFFFF
 MARKER = int.from_bytes(b"\x11" * 32, "big")
-REPORT_WORDS = 9
+REPORT_WORDS = 10
 REPORT = 32 * REPORT_WORDS
 ARG_OFF = REPORT  # one word of arguments for children
 KIDS_OFF = REPORT + 32
@@ -124,7 +124,8 @@ def _effect_code(e) -> list:
 
 def _report() -> list:
     ops = [["CALLER"], ["ADDRESS"], ["CALLVALUE"], ["ORIGIN"], [("PUSH", 0), "SLOAD"], ["SELFBALANCE"],
-           [("PUSH", 0), "TLOAD"], [("PUSH", 0), "CALLDATALOAD"], [("PUSH", 1), "SLOAD"]]
+           [("PUSH", 0), "TLOAD"], [("PUSH", 0), "CALLDATALOAD"], [("PUSH", 1), "SLOAD"],
+           ["CODESIZE"]]  # the size of the code being executed (the callee's, also in a DELEGATECALL / CALLCODE frame)
     out = []
     for i, o in enumerate(ops):
         out += o + [("PUSH", 32 * i), "MSTORE"]
